@@ -79,8 +79,9 @@ func Stateful() []Table {
 		"propBankHeightForFineDep": 0.1, "sedBulkDensity": 1.5, "manningsN": 0.04, "fineSedSettVelocity": 1e-4, "fineSedReMobVelocity": 1e-3, "durationInSeconds": 86400}
 	fine0 := cp(fine, M{"bankFullFlow": 0})
 	fine2 := cp(fine, M{"fineSedSettVelocity": 1e-2, "fineSedReMobVelocity": 0.5, "propBankHeightForFineDep": 0.001})
-	ifL := [][]float64{{0, 0, 0, 0, 0}, {2, 0.5, 0.1, 1e4, 5}, {500, 0, 0, 1e4, 0.5}, {50, 2, 1, 1e6, 120}, {0, 0, 0, 1e4, 30}, {2, 0, 0, 0, 0}}
-	add("InstreamFineSediment", ifL, 1, fine, fine0, fine2)
+	ifL := [][]float64{{0, 0, 0, 0, 0}, {2, 0.5, 0.1, 1e4, 5}, {500, 0, 0, 1e4, 0.5}, {50, 2, 1, 1e6, 120}, {0, 0, 0, 1e4, 30}, {2, 0, 0, 0, 0}, {300, 0, 0, 1e6, 120}}
+	fine3 := cp(fine, M{"fineSedSettVelocityFlood": 1e-3, "linkSlope": 1e-4, "fineSedSettVelocity": 1e-2})
+	add("InstreamFineSediment", ifL, 1, fine, fine0, fine2, fine3)
 	add("InstreamCoarseSediment", [][]float64{{0, 0, 0}, {2, 0.5, 0.1}, {50, 0, 3}}, 1, M{"durationInSeconds": 86400}, M{"durationInSeconds": 3600})
 	ipL := [][]float64{{0, 0, 0, 0, 0, 0, 0, 0}, {2, 0.5, 1e4, 5, 0.2, 1, 0.1, 0.2}, {2, 0.5, 1e4, 5, 0, 0, 0, -0.1}, {40, 3, 1e6, 120, 1, 1, 0.6, 0.5}, {2, 1, 0, 0, 0, 1, 0, 0}, {0, 0, 1e4, 5, 0, 0, 0, -0.3}}
 	add("InstreamParticulateNutrient", ipL, 1, M{"particulateNutrientConcentration": 0.002, "soilPercentFine": 35, "durationInSeconds": 86400}, M{"particulateNutrientConcentration": 0, "soilPercentFine": 100, "durationInSeconds": 3600})
